@@ -103,12 +103,13 @@ def errCode (e : Err) : Nat :=
   | .conflict => look "TaskNameFlattenConflictError"
   | .cycle => look "TaskfileCycleError"
   | .versionCheck => look "TaskfileVersionCheckError"
+  | .decode => look "TaskfileDecodeError"
   | .missing | .version | .dotenv => 1
   | .internal => 0
 
 def errName : Err → String
   | .conflict => "conflict" | .cycle => "cycle" | .missing => "missing" | .version => "version"
-  | .dotenv => "dotenv" | .versionCheck => "versioncheck" | .internal => "internal"
+  | .dotenv => "dotenv" | .versionCheck => "versioncheck" | .decode => "decode" | .internal => "internal"
 
 def allKeys (fm : FileMap) : List Nat :=
   let ks := fm.flatMap (fun f => f.2.vars.keys ++ f.2.env.keys ++ f.2.tasks.flatMap (·.vars.keys)
